@@ -169,7 +169,7 @@ def parse_template(text):
                 # listed in known_findings.txt (then: KNOWN-FINDING), otherwise a failure is a VIOLATION
                 cur.finding = arg.strip()
                 cur.flags.add("noprobe")
-            elif cmd in ("drop_derive", "keep_pub", "noprobe", "noimpl", "plain", "implspec", "external_body"):
+            elif cmd in ("drop_derive", "keep_pub", "noprobe", "noimpl", "plain", "implspec", "tail_continue", "external_body"):
                 cur.flags.add(cmd)
             else:
                 raise ValueError("unknown directive: " + line)
@@ -538,6 +538,7 @@ def generate(unit, probe=False, repo=None):
             "keep_pub": "keep_pub" in b.flags, "drop_derive": "drop_derive" in b.flags,
             "rename": b.rename,
             "probe": probe and has_req and item.kind == "fn" and "noprobe" not in b.flags,
+            "tail_continue": "tail_continue" in b.flags,
         }
         pre = b.attrs
         post = ""
@@ -560,6 +561,7 @@ def generate(unit, probe=False, repo=None):
             sig_opts = dict(opts)
             sig_opts["sig_only"] = True
             sig_opts["probe"] = False
+            sig_opts["tail_continue"] = False   # (the trait declaration has no body)
             body_opts = dict(opts)
             body_opts["clauses"] = ""
             pre_decl = pre_def = ""
